@@ -1,7 +1,7 @@
 """C03 — well-formed server output is decoded exactly, including binary and command lists."""
 import mpdgen as g
 import connlib
-from connlib import run_cases, describe, print_replay
+from connlib import run_bigbin, replay_bigbin, run_cases, describe, print_replay
 from vlib import Failure, finish, unhexs
 
 COQ_FILES = connlib.COQ_FILES + ["Grammar.v", "RoundTripProofs.v"]
@@ -114,8 +114,15 @@ def run(ctx, only=None):
              "multi_response": sum(1 for e in expect if len(e) > 1), "cases": len(cases),
              "spec_tie_responses": spec_n, "spec_tie_ill_formed": ill_n, "spec_wf_wider_than_protocol_mirror": wider}
     nontrivial = {c for c, e in zip(cases, expect) if len(e) > 1 or any("/" in x or "err[none]" not in x or "bin=~" not in x for x in e)}
+    n_big = 0
+    if only is None:
+        bc, _, bf = run_bigbin(ctx)
+        n_big = len(bc)
+        fails = list(fails) + bf
+        kinds = dict(kinds)
+        kinds["large_payload_runs_64KiB_to_8MiB"] = n_big
     return finish(
-        ctx, evaluations=len(cases), distinct_nontrivial=len(nontrivial),
+        ctx, evaluations=len(cases) + n_big, distinct_nontrivial=len(nontrivial),
         rule="abstract responses (0..6 frames, single/list form, keys and values from pools that over-represent protocol look-alikes, payloads "
              "0..9000 bytes with protocol-like content, errors of all shapes, 1..5 responses back to back, optional trailing garbage) are "
              "encoded, pushed through both real connections whole and under random segmentation, and the printed Response is compared with the "
@@ -129,6 +136,8 @@ def run(ctx, only=None):
 
 
 def replay(ctx, payload):
+    if any(str(c).startswith("bigbin") for c in payload.get("cases", [])):
+        return replay_bigbin(ctx, [c for c in payload["cases"] if c.startswith("bigbin")])
     cases = payload.get("cases", [])
     exp = payload.get("extra", {}).get("expect", [])
     return run(ctx, only={"cases": cases, "expect": [exp for _ in cases]})
